@@ -479,3 +479,16 @@ def whole_number_bounds(draw, sysd, one_in=5):
         out["lb"] = [1.0 if v > 0 else 0.0 for v in np.broadcast_to(np.asarray(sysd["lb"], dtype=float), (n,))]
     out["bounds_form"] = draw(st.sampled_from(["int", "intlist"]))
     return out, True
+
+
+def whole_number_model(sv):
+    """K and baseline of a system rounded to whole numbers, as integer-typed and as float arguments of the function entries:
+    (dict(K=int.., baseline=int..), dict(K=float.., baseline=float..)); None for a matrix K (always float)."""
+    if sv.K_raw is not None and np.ndim(sv.K_raw) >= 2:
+        return None
+    Ki = None if sv.K_raw is None else np.atleast_1d(np.maximum(1, np.round(np.asarray(sv.K_raw, dtype=float))).astype(np.int64))
+    bi = np.int64(0) if sv.base_raw is None else np.round(np.asarray(sv.base_raw, dtype=float) / sv.extent * 10.0).astype(np.int64)
+    if np.ndim(bi) == 0:
+        bi = int(bi)
+    flt = lambda v: None if v is None else (float(v) if np.ndim(v) == 0 else np.asarray(v, dtype=float))
+    return dict(K=Ki, baseline=bi), dict(K=flt(Ki), baseline=flt(bi))
